@@ -2,7 +2,7 @@
    flattened observation; [model_obs] runs the model on the same arguments. *)
 From Coq Require Import ZArith List Bool.
 Import ListNotations.
-From Osmo Require Import Base.Obs Base.DecModel C13.Common C13.Sqrt.
+From Osmo Require Import Base.Obs Base.DecModel C13.Common C13.Sqrt C13.SigFig.
 Open Scope Z_scope.
 
 Record case := mkCase {
@@ -17,6 +17,7 @@ Definition model_obs (c : case) : list Z :=
   match c_op c, c_args c with
   | 1, [d] => flat_res (monotonic_sqrt d)
   | 2, [d] => flat_res (monotonic_sqrt_bigdec d)
+  | 3, [d; s] => flat_res (sigfig_round d s)
   | _, _ => [-999]
   end.
 
